@@ -190,7 +190,7 @@ theorem lexOne_tag (n : Str) (a : List Attr) (hn : TagNameOK n) (hattrs : ∀ x 
     ∀ k, (('<' :: n) ++ renderAttrs a ++ cl ++ rest).length < k →
       ∃ tc tr, renderAttrs' a ++ cl ++ rest = tc :: tr ∧
         span isTagCh (n ++ tc :: tr) = (n, tc :: tr) ∧
-        lexAttrs k (tc :: tr) = some (a, sc, rest) := by
+        lexAttrs k (tc :: tr) = some (a, sc, rest) ∧ tagNameEnds (tc :: tr) = true := by
   intro k hk
   obtain ⟨⟨c, cs, rfl, hca⟩, hall, hlow⟩ := hn
   obtain ⟨tc, tr, htail, htc, _⟩ := tail_head_gen a hattrs cl sc hcl rest
@@ -200,7 +200,9 @@ theorem lexOne_tag (n : Str) (a : List Attr) (hn : TagNameOK n) (hattrs : ∀ x 
     simp [renderAttrs_eq] at hk ⊢; omega
   have hA := lexAttrs_render_gen a hattrs cl sc hcl rest k hlen
   rw [htail] at hA
-  exact ⟨tc, tr, htail, hsp, hA⟩
+  have hte : tagNameEnds (tc :: tr) = true := by
+    rcases htc with e | e | e <;> (subst e; simp [tagNameEnds, isTagEnd])
+  exact ⟨tc, tr, htail, hsp, hA, hte⟩
 
 theorem lexOne_renderY (y : TagStyle) (hy : y.OK) (t : Token) (h : TokOK t) (rest : Str) (hf : Follows t rest) :
     ∀ k, (renderTokY y t ++ rest).length < k → lexOne k (renderTokY y t ++ rest) = some ([t], rest) := by
@@ -209,23 +211,23 @@ theorem lexOne_renderY (y : TagStyle) (hy : y.OK) (t : Token) (h : TokOK t) (res
   | start n a =>
     obtain ⟨hn, hraw, hattrs⟩ := h
     have hk' : (('<' :: n) ++ renderAttrs a ++ y.o ++ rest).length < k := by simpa [renderTokY] using hk
-    obtain ⟨tc, tr, htail, hsp, hA⟩ := lexOne_tag n a hn hattrs y.o false hy.1 rest k hk'
+    obtain ⟨tc, tr, htail, hsp, hA, hte⟩ := lexOne_tag n a hn hattrs y.o false hy.1 rest k hk'
     obtain ⟨⟨c, cs, rfl, hca⟩, hall, hlow⟩ := hn
     have hrender : renderTokY y (.start (c :: cs) a) ++ rest = '<' :: c :: (cs ++ (renderAttrs' a ++ y.o ++ rest)) := by
       simp [renderTokY, renderAttrs_eq]
     rw [hrender, htail]
     simp only [List.cons_append] at hsp
-    simp [lexOne, hca, hsp, hA, hlow, hraw]
+    simp [lexOne, hca, hsp, hA, hlow, hraw, hte]
   | startend n a =>
     obtain ⟨hn, hattrs⟩ := h
     have hk' : (('<' :: n) ++ renderAttrs a ++ y.s ++ rest).length < k := by simpa [renderTokY] using hk
-    obtain ⟨tc, tr, htail, hsp, hA⟩ := lexOne_tag n a hn hattrs y.s true hy.2 rest k hk'
+    obtain ⟨tc, tr, htail, hsp, hA, hte⟩ := lexOne_tag n a hn hattrs y.s true hy.2 rest k hk'
     obtain ⟨⟨c, cs, rfl, hca⟩, hall, hlow⟩ := hn
     have hrender : renderTokY y (.startend (c :: cs) a) ++ rest = '<' :: c :: (cs ++ (renderAttrs' a ++ y.s ++ rest)) := by
       simp [renderTokY, renderAttrs_eq]
     rw [hrender, htail]
     simp only [List.cons_append] at hsp
-    simp [lexOne, hca, hsp, hA, hlow]
+    simp [lexOne, hca, hsp, hA, hlow, hte]
   | end_ n => exact lexOne_render _ h rest hf k hk
   | data s => exact lexOne_render _ h rest hf k hk
   | entity s => exact lexOne_render _ h rest hf k hk
@@ -246,7 +248,7 @@ theorem lexOne_render_rawY (y : TagStyle) (hy : y.OK) (n : Str) (a : List Attr) 
   have hrest'' : rest' = raw ++ '<' :: '/' :: (n ++ '>' :: rest) := by
     rw [← hrest']; simp [renderTok]
   have hk' : (('<' :: n) ++ renderAttrs a ++ y.o ++ rest').length < k := by simpa [renderTokY] using hk
-  obtain ⟨tc, tr, htail, hsp, hA⟩ := lexOne_tag n a hn hattrs y.o false hy.1 rest' k hk'
+  obtain ⟨tc, tr, htail, hsp, hA, hte⟩ := lexOne_tag n a hn hattrs y.o false hy.1 rest' k hk'
   have hlenR : rest'.length < k := by simp at hk'; omega
   have hR : lexRaw n k rest' = some (raw, rest) := by
     rw [hrest''] at hlenR ⊢
@@ -256,7 +258,7 @@ theorem lexOne_render_rawY (y : TagStyle) (hy : y.OK) (n : Str) (a : List Attr) 
     simp [renderTokY, renderAttrs_eq]
   rw [hrender, htail]
   simp only [List.cons_append] at hsp
-  simp only [lexOne, hca, if_true, hsp, hA, hlow, Bool.false_eq_true, if_false, hraw, hR, rawBlock]
+  simp only [lexOne, hca, if_true, hsp, hte, Bool.not_true, hA, hlow, Bool.false_eq_true, if_false, hraw, hR, rawBlock]
 
 /-! ### whole token lists, any style -/
 
